@@ -142,18 +142,18 @@ def ensure_vector(to_check, names, func_name):
     out_args = list(to_check)
     for idx, xx in enumerate(to_check):
 
-        if (xx.ndim > 1) and (xx.shape[1] == 1):
+        if xx.ndim > 2:
+            msg = "Checking {0} inputs - Shape of input '{1}' {2} must be a vector."
+            msg = msg.format(func_name, names[idx], xx.shape)
+            logger.error(msg)
+            raise ValueError(msg)
+        elif (xx.ndim > 1) and (xx.shape[1] == 1):
             msg = "Checking {0} inputs - trimming singleton from input '{1}'"
             msg = msg.format(func_name, names[idx])
             out_args[idx] = out_args[idx][:, 0]
             logger.warning(msg)
         elif (xx.ndim > 1) and (xx.shape[1] != 1):
             msg = "Checking {0} inputs - Input '{1}' {2} must be a vector or 2d with singleton second dim"
-            msg = msg.format(func_name, names[idx], xx.shape)
-            logger.error(msg)
-            raise ValueError(msg)
-        elif xx.ndim > 2:
-            msg = "Checking {0} inputs - Shape of input '{1}' {2} must be a vector."
             msg = msg.format(func_name, names[idx], xx.shape)
             logger.error(msg)
             raise ValueError(msg)
@@ -201,6 +201,11 @@ def ensure_1d_with_singleton(to_check, names, func_name):
         if (xx.ndim > 2) and np.all(xx.shape[1:] == np.ones_like(xx.shape[1:])) == False:  # noqa: E712
             # nd input where some trailing are not one
             msg = "Checking {0} inputs - trailing dims of input '{1}' {2} must be singletons (length=1)"
+            logger.error(msg.format(func_name, names[idx], xx.shape))
+            raise ValueError(msg)
+        elif (xx.ndim == 2) and (xx.shape[1] != 1):
+            # 2d input with more than one column
+            msg = "Checking {0} inputs - second dim of input '{1}' {2} must be a singleton (length=1)"
             logger.error(msg.format(func_name, names[idx], xx.shape))
             raise ValueError(msg)
         elif xx.ndim == 1:
